@@ -46,6 +46,9 @@ pub struct Ctx {
     pub known: BTreeSet<String>,
     /// Journal file: when set, every case is written there before it is executed.
     pub journal: Option<PathBuf>,
+    /// Part file of this worker: rewritten whenever a failure is recorded, so that what was found
+    /// survives a worker that later hangs and is killed by the watchdog.
+    pub part: Option<PathBuf>,
 }
 
 impl Ctx {
@@ -212,6 +215,9 @@ impl Report {
                     case: case(),
                     profile: ctx.profile.clone(),
                 });
+                if let Some(part) = &ctx.part {
+                    let _ = std::fs::write(part, serde_json::to_vec(&*self).unwrap_or_default());
+                }
             }
             return true;
         }
